@@ -808,7 +808,7 @@ vharness! {
                 if released {
                     held = Some(rx_c);
                 } else {
-                    q.rx = Some(rx_c);
+                    q.rx.push_back((a, rx_c));
                 }
             }
             let rxs = arb_waiters(&sh, 1);
@@ -817,7 +817,7 @@ vharness! {
                 assert!(is_ack(rx, AckType::Complete, a), "exactly-once send not completed by its own PUBCOMP");
             }
             let q = sh.queues.borrow();
-            assert!(q.rx.is_none(), "stale completion receiver left in the pending-release slot");
+            assert!(q.rx.is_empty(), "stale completion receiver left among the pending releases");
             assert!(!q.inflight_ids.contains(&a) && q.inflight.len() == 0);
             drop(q);
             check_wakes(&sh, &rxs, 1, 1);
@@ -836,7 +836,7 @@ vharness! {
     //@ assumes: queue invariant
     //@ mem: 16  timeout: 1200
     //@ stubs: yes
-    //@ finding: known K4: the completion receiver of a PUBREC'd send is parked in ONE Option slot (`MqttSharedQueues.rx`); a second PUBREC overwrites (drops) it
+    //@ finding: regression harness of former K4 (repaired in /repo): the completion receiver of a PUBREC'd send used to be parked in ONE Option slot
     //@ desc: PUBREC for a second exactly-once send while the first is not yet released: releasing a must still write PUBREL(a) and return the receiver of a's own PUBCOMP; releasing b likewise
     #[kani::stub(<codec::Codec as Encoder>::encodev, stub_encodev5)]
     fn sh5_qos2_pair() unwind(5) {
@@ -853,7 +853,7 @@ vharness! {
                 let mut q = sh.queues.borrow_mut();
                 q.inflight.push_back((a, Some(tx_ca), AckType::Complete));
                 q.inflight_ids.insert(a);
-                q.rx = Some(rx_ca);
+                q.rx.push_back((a, rx_ca));
             }
             assert!(sh.pkt_ack(mk_ack(AckType::Receive, b)).is_ok());
             assert!(is_ack(&rx_b, AckType::Receive, b));
